@@ -91,4 +91,30 @@ def fileopsOp (args : List String) : String :=
         | _ => "openerr"
   | _ => "bad-op"
 
+/-- `fileopsclr <short> <tree> <hexpath> <kind> <hexkey> <ops>`: access patterns on the view the decrypt tools
+    build — NewEncryptedISO(image, key, clearRegions = true), for 3k3y wrapped in NewISO3k3y -/
+def fileopsclrOp (args : List String) : String :=
+  match args with
+  | [_, tree, hpath, kind, hkey, ops] =>
+    match fromHex hpath, fromHex hkey with
+    | some pb, some key =>
+      let w := parseTree tree
+      match w.stat (pathOfBytes pb) with
+      | some (_, .file i) =>
+        match w.inode? i with
+        | some f =>
+          let rd := FSWrap.fileRd f
+          let size := f.content.size
+          if size > Viso.maxSector * Crypt.sectorSize then "openerr" else
+          match Crypt.parseTable rd with
+          | none => "openerr"
+          | some regs =>
+            let dec := Crypt.readDec (Crypt.aesSector key) (Crypt.gaps regs) rd size (8 + 8 * regs.length)
+            let view : Nat → Nat → Bytes := if kind == "redump" then dec else fun off n => Crypt.mask3k3y (dec off n) off
+            "ops=" ++ String.intercalate "," (fileOpsRun view size (parseOps ops) 0 [])
+        | none => "openerr"
+      | _ => "openerr"
+    | _, _ => "bad-op"
+  | _ => "bad-op"
+
 end Driver
